@@ -90,7 +90,7 @@ CALLSITE: contextvars.ContextVar[str] = contextvars.ContextVar('kv_c13_callsite'
 
 
 @contextlib.contextmanager
-def stubbed_patch_obj(fn: Any) -> Iterator[None]:
+def stubbed_patch_obj(fn: Any, withdrawal_site: bool = False) -> Iterator[None]:
     """Replace the name `patching` inside peering.py by a shim whose patch_obj is `fn`."""
     from kopf._core.engines import peering
     if not hasattr(peering, 'patching') or not hasattr(peering.patching, 'patch_obj'):
@@ -107,7 +107,7 @@ def stubbed_patch_obj(fn: Any) -> Iterator[None]:
     orig_touch, orig_clean = peering.touch, peering.clean
 
     async def touch(**kw: Any) -> None:
-        tok = CALLSITE.set('touch')
+        tok = CALLSITE.set('touch-w' if withdrawal_site and kw.get('lifetime') == 0 else 'touch')
         try:
             await orig_touch(**kw)
         finally:
@@ -181,6 +181,8 @@ class Op:
         self.started_at = 0.0
         self.in_flight: list[dict] = []
         self.exited = False           # the lifetime=0 touch of this incarnation has been written
+        self.announce_latency = 0.0   # the answer to the FIRST keep-alive PATCH is this late
+        self.announced = False
 
 
 class Net:
@@ -339,6 +341,12 @@ def installed(net: Net) -> Iterator[None]:
                 net.odd.append(['touch-while-exiting', op.id, p])
             else:
                 net.label(f"LKeepalive {cq.cstr(op.id)} {cq.cZ(net.scenario['jitter'])}", ['keepalive', op.id, net.scenario['jitter']])
+                if op.announce_latency and not op.announced:
+                    op.announced = True
+                    net.write(op.id, copy.deepcopy(p))
+                    await asyncio.sleep(op.announce_latency)      # applied, not yet answered
+                    return {}, None
+                op.announced = True
             net.write(op.id, copy.deepcopy(p))
         else:
             net.odd.append(['odd-patch', op.id, site, p])
@@ -465,7 +473,7 @@ async def _stream_prober(net: Net, op: Op) -> None:
         op.stream_open = False
 
 
-def start_op(net: Net, spec: dict) -> Op:
+def start_op(net: Net, spec: dict, announce_latency: float = 0.0) -> Op:
     op = net.ops.get(spec['id'])
     if op is None:
         op = net.ops[spec['id']] = Op(net, spec)
@@ -476,6 +484,8 @@ def start_op(net: Net, spec: dict) -> Op:
     op.state, op.listed, op.feed, op.pending = 'up', False, asyncio.Queue(), 0
     op.in_flight = []
     op.exited = False
+    op.announced = False
+    op.announce_latency = announce_latency
     op.last_delivery = 0.0
     op.started_at = net.loop.time()
     op.settings = make_settings({'name': 'default', 'prio': spec['prio'], 'life': spec['life'], 'mandatory': spec.get('mandatory', False)})
@@ -564,6 +574,10 @@ def gen_scenario(r: _random.Random, idx: int) -> dict:
         down = [i for i in ids if i not in up]
         if down and (k < 0.45 or not up):
             i = r.choice(down)
+            if r.random() < 0.15:
+                actions.append({'at': t, 'do': 'start_exit', 'op': i})
+                t += 1
+                continue
             up.add(i)
             actions.append({'at': t, 'do': 'start', 'op': i})
         elif up and k < 0.62:
@@ -702,6 +716,12 @@ def run_scenario(ctx: fw.Ctx, sc: dict) -> Net:
             run_to(t0 + act['at'])
             if act['do'] == 'start':
                 start_op(net, sc['ops'][act['op']])
+            elif act['do'] == 'start_exit':
+                # stopped gracefully while its very first announcement is in flight (applied, unanswered)
+                op = start_op(net, sc['ops'][act['op']], announce_latency=0.5)
+                run_to(t0 + act['at'] + 0.25)
+                exit_op(net, op)
+                loop.settle()
             elif act['do'] == 'exit':
                 op = net.ops[act['op']]
                 exit_op(net, op)
@@ -810,9 +830,9 @@ def overlapping(sc: dict) -> int:
     up: set[str] = set()
     best = 0
     for a in sc['actions']:
-        if a['do'] == 'start':
+        if a['do'] in ('start', 'start_exit'):
             up.add(a['op'])
-        elif a['do'] in ('exit', 'kill'):
+        if a['do'] in ('exit', 'kill', 'start_exit'):
             up.discard(a['op'])
         best = max(best, len(up))
     return best
